@@ -325,7 +325,9 @@ class Report:
         if self.replay_of:
             ev["replay_of"] = self.replay_of
         # a replay run describes one input, not the check's coverage: it does not overwrite the evidence file
-        with open(os.path.join(VERIF, "evidence", self.pid + (".replay.json" if self.replay_of else ".json")), "w") as f:
+        # VERIF_SCRATCH=1 (runs against a deliberately changed tree: seeded changes): do not touch the evidence of record
+        suffix = ".replay.json" if self.replay_of else (".scratch.json" if os.environ.get("VERIF_SCRATCH") else ".json")
+        with open(os.path.join(VERIF, "evidence", self.pid + suffix), "w") as f:
             json.dump(ev, f, indent=1, default=str)
         for l in lines:
             print(l)
